@@ -22,11 +22,19 @@ type treeEngine struct{ prop string }
 func init() {
 	Register(treeEngine{"c09"})
 	Register(treeEngine{"c20"})
+	Register(treeEngine{"c16"})
+	Register(treeEngine{"c18"})
 }
 
 func (e treeEngine) Name() string { return e.prop }
 func (e treeEngine) Rule() string {
 	common := "full-server simulation: worlds of 3 journal-profile files on disk (main.journal including a.journal and sometimes b.journal, a.journal sometimes including b.journal) plus one unsaved document, with and without workspace root; histories of 4..30 operations (didOpen of root or included files, unsaved structured edits that add, remove and move occurrences and include lines, didSave, didClose, re-open) with the server's background tasks scheduled under 7 policies; then, at quiescent points only, "
+	if e.prop == "c16" {
+		return common + c16Rule
+	}
+	if e.prop == "c18" {
+		return common + c18Rule
+	}
 	if e.prop == "c09" {
 		return common + "references (with and without declaration) and rename from EVERY open document on positions drawn from the generator's occurrence table. Oracles: (1) ground truth: the location set equals the occurrence table over the governing tree (workspace root journal's tree plus the requesting document with a workspace; the requesting document's tree without), taking the open buffer where a file is open and the disk copy otherwise, each location attributed to the file that contains it; (2) rename returns an edit at exactly those occurrences (declarations included) with the new name. Non-trivial: >= 1 request answered from a document other than the root of its tree, or after an include edit. Distinct: hash of (tree shapes over time, requesting documents, symbol kinds)."
 	}
@@ -76,12 +84,42 @@ func (e treeEngine) Run(ctx *RunCtx) {
 		return ctx.Fail(&Violation{Property: prop, Oracle: oracle, Class: class, Msg: msg, Witness: wit})
 	}
 	defer d.Teardown()
-	if r := d.Call("initialize", InitParams(w.Root, c.Bool("folders"), false, nil)); r == nil {
+	// C16 / C18: the settings that matter arrive through the second party (the
+	// client answers workspace/configuration) and change during the history
+	st := &treeSettings{maxResults: 200, fuzzy: true, undeclAcct: true}
+	withSettings := e.prop == "c16" || e.prop == "c18"
+	var initOpts any
+	if withSettings {
+		st.draw(c, e.prop)
+		initOpts = J{"hledger": st.payload()}
+		ctx.T("settings: %s", canonAny(st.payload()))
+	}
+	if r := d.Call("initialize", InitParams(w.Root, c.Bool("folders"), withSettings, initOpts)); r == nil {
 		fail("liveness", "no-initialize-response", "initialize not answered", nil)
 		return
 	}
 	d.Notify("initialized", J{})
 	d.Quiesce()
+	answerConfig := func() {
+		for n := 0; n < 6; n++ {
+			ids := d.Sess.PendingServerRequests()
+			if len(ids) == 0 {
+				return
+			}
+			for _, id := range ids {
+				d.Sess.Respond(id, []any{st.payload()}, nil)
+			}
+			d.Quiesce()
+		}
+	}
+	answerConfig()
+	reconfigure := func() {
+		st.draw(c, e.prop)
+		d.Notify("workspace/didChangeConfiguration", J{"settings": nil})
+		d.Quiesce()
+		answerConfig()
+		ctx.T("configuration changed (answered at once): %s", canonAny(st.payload()))
+	}
 	main := w.Docs[0]
 	nontrivial := false
 	var sig []string
@@ -125,6 +163,12 @@ func (e treeEngine) Run(ctx *RunCtx) {
 		if e.prop == "c20" {
 			return e.observeHover(ctx, d, w, doc, tree, fail)
 		}
+		if e.prop == "c16" {
+			return e.observeCompletion(ctx, c, d, w, doc, tree, st, reconfigure, fail)
+		}
+		if e.prop == "c18" {
+			return e.observeUndeclared(ctx, c, d, w, doc, tree, st, fail)
+		}
 		return e.observeRefs(ctx, c, d, w, doc, tree, fail)
 	}
 	nops := c.Range("nops", 4, 30)
@@ -165,6 +209,9 @@ func (e treeEngine) Run(ctx *RunCtx) {
 			doc.Open = false
 			ctx.T("op%d didClose d%d", op, doc.No)
 		case 3:
+			if withSettings && c.Pct("reconfigure", 15) {
+				reconfigure()
+			}
 			ctx.T("op%d observe from d%d", op, doc.No)
 			if !observe(doc) {
 				break
